@@ -178,6 +178,29 @@ def generate_logger(rng, tier, index):
         texts.append(c20.config_text(p20, "/sim/logs"))
     n = rng.randint(3, 8)
     hist = [rng.randrange(len(texts)) for _ in range(n)]
+    if rng.random() < 0.35:
+        # scripted skeleton: a text the component refuses (a field it does
+        # not know, arbitrary-fields off), then a text that is refused while
+        # arbitrary-fields is ON (its format cannot be used), then the first
+        # text again: refused for the same reason as before
+        style = rng.choice(["classic", "format", "template"])
+
+        def one(toks, arb):
+            h = {"path": "STDOUT", "style": style, "format": toks}
+            if arb is not None:
+                h["arbitrary"] = arb
+            return c20.config_text({"loggers": [{
+                "kind": "logger", "name": "zcsim.c13.s", "level": None,
+                "handlers": [h]}]}, "/sim/logs")
+        unknown = one([fld("zzfield"), {"t": "lit", "s": " "},
+                       fld("message")], rng.choice([None, "false"]))
+        failing = one(rng.choice([
+            [fld("message", conv="d", fv=3)],
+            [{"t": "positional", "p": "{}"}, fld("message")],
+            [fld("thread", conv="c", fv=6)]]), "true")
+        texts = [unknown, failing] + texts[:1]
+        hist = [0, 1, 0] + [rng.randrange(len(texts))
+                            for _ in range(rng.randint(0, 3))]
     return {"prop": ID, "kind": "logger", "schema_xml": c20.SCHEMA,
             "texts": texts, "ops": [{"op": "load", "text": i} for i in hist]}
 
